@@ -20,6 +20,43 @@ def tadd(t, c):
     return (t[0], t[1] + c)
 
 
+def refine_terms(d, op, a, c, truth):
+    """add the comparison `a op c` (or its negation) between two terms to the zone"""
+    if not truth:
+        op = {"Lt": "Ge", "Le": "Gt", "Gt": "Le", "Ge": "Lt", "Eq": "Ne", "Ne": "Eq"}[op]
+    if op == "Lt":
+        d.add(a[0], c[0], c[1] - a[1] - 1)
+    elif op == "Le":
+        d.add(a[0], c[0], c[1] - a[1])
+    elif op == "Gt":
+        d.add(c[0], a[0], a[1] - c[1] - 1)
+    elif op == "Ge":
+        d.add(c[0], a[0], a[1] - c[1])
+    elif op == "Eq":
+        d.add(a[0], c[0], c[1] - a[1])
+        d.add(c[0], a[0], a[1] - c[1])
+    elif op == "Ne":
+        if d.entails(a[0], c[0], c[1] - a[1] - 1) or d.entails(c[0], a[0], a[1] - c[1] - 1):
+            return
+        if d.entails(a[0], c[0], c[1] - a[1]):      # a ≤ c ∧ a ≠ c
+            d.add(a[0], c[0], c[1] - a[1] - 1)
+        elif d.entails(c[0], a[0], a[1] - c[1]):
+            d.add(c[0], a[0], a[1] - c[1] - 1)
+
+
+def refuted(d, op, a, c, truth):
+    """is `a op c` == truth impossible in the zone?"""
+    if d.bottom:
+        return True
+    if not truth:
+        op = {"Lt": "Ge", "Le": "Gt", "Gt": "Le", "Ge": "Lt", "Eq": "Ne", "Ne": "Eq"}[op]
+    if op == "Ne":
+        return d.entails(a[0], c[0], c[1] - a[1]) and d.entails(c[0], a[0], a[1] - c[1])
+    d2 = d.copy()
+    refine_terms(d2, op, a, c, True)
+    return d2.bottom
+
+
 class VState:
     def __init__(self, d):
         self.d = d
@@ -172,6 +209,11 @@ class SelectionProof:
         self.za = ZoneAnalysis(body, lambda st, z: None)
         self.int_locals = set(self.za.int_locals)
         self.notes = []
+        self.panic_obs = []      # (kind, discharged, detail) – requirements for "no panic for an in-range index"
+        self.i_param = None
+
+    def need(self, st, kind, ok, detail):
+        self.panic_obs.append((kind, bool(ok) or st.d.bottom, detail))
 
     def name(self, l):
         return "_%d" % l
@@ -194,6 +236,8 @@ class SelectionProof:
                 d.add(self.name(l), "Z", USIZE_MAX)
         d.add("Z", "N", 0)
         d.add("N", "Z", LEN_MAX)
+        if self.i_param is not None:
+            d.add(self.name(self.i_param), "N", -1)        # precondition of the converse: the requested position is in range
         st = VState(d)
         blocks = list(pi.blocks)
         ret_sym = None
@@ -208,10 +252,26 @@ class SelectionProof:
                 pend = st.pending.get(t["cond"]["pl"]["l"]) if t["cond"]["k"] in ("move", "copy") else None
                 if pend:
                     op, a, c = pend
+                    if a and c and op == "Sub":
+                        self.need(st, "overflow", st.le(c, a), "`%s − %s` needs %s ≥ %s (%s)" % (a, c, a, c, b.where(bb, "term")))
+                    elif a and c and op == "Add":
+                        tot = (a[0], a[1] + c[1]) if c[0] == "Z" else ((c[0], a[1] + c[1]) if a[0] == "Z" else None)
+                        self.need(st, "overflow", tot is not None and st.le(tot, ("Z", USIZE_MAX)), "`%s + %s` must not exceed usize::MAX (%s)" % (a, c, b.where(bb, "term")))
+                    else:
+                        self.need(st, "overflow", False, "unmodelled overflow check (%s)" % b.where(bb, "term"))
                     if a and c and c[0] == "Z" and op == "Sub":
                         st.d.add("Z", a[0], -(c[1] - a[1]))
                     elif a and c and op == "Sub":
                         st.d.add(c[0], a[0], a[1] - c[1])      # a − c ≥ 0
+                else:
+                    cl = t["cond"]["pl"]["l"] if t["cond"]["k"] in ("move", "copy") and not t["cond"]["pl"]["p"] else None
+                    info = st.bools.get(cl)
+                    exp = bool(t.get("expected", True))
+                    if info:
+                        self.need(st, "assert", refuted(st.d, info[0], info[1], info[2], not exp), "assert `%s %s %s` (%s)" % (info[1], info[0], info[2], b.where(bb, "term")))
+                        refine_terms(st.d, info[0], info[1], info[2], exp)
+                    else:
+                        self.need(st, "assert", False, "unmodelled assert (%s)" % b.where(bb, "term"))
             elif t["k"] == "call":
                 r = self.call(st, bb, t)
                 if r is False:
@@ -219,10 +279,28 @@ class SelectionProof:
                 if not t["dst"]["p"] and t["dst"]["l"] == 0:
                     ret_sym = st.val.get(0)
             elif t["k"] == "switch" and nxt is not None:
+                self.diverging_edges(st, bb, t)
                 self.switch(st, t, nxt)
             if st.d.bottom:
                 return "infeasible", None, ""
         return st, ret_sym, ""
+
+    def diverging_edges(self, st, bb, t):
+        """every successor of this switch from which no return is reachable (a panic) must be excluded by the current state"""
+        b = self.b
+        dsc = t["discr"]
+        dl = dsc["pl"]["l"] if dsc["k"] in ("move", "copy") and not dsc["pl"]["p"] else None
+        info = st.bools.get(dl)
+        f = [tgt for v, tgt in t["arms"] if v == 0]
+        ftgt = f[0] if f else None
+        for s_ in b.succ(bb):
+            if b.term(s_)["k"] == "unreachable" or b.can_reach_return(s_):
+                continue
+            ok = False
+            if info is not None and t.get("discr_ty") == "bool":
+                truth = False if s_ == ftgt else True
+                ok = refuted(st.d, info[0], info[1], info[2], truth)
+            self.need(st, "diverging-branch", ok, "the branch at %s into a block that cannot return (a panic) is not excluded for in-range arguments" % b.where(bb, "term"))
 
     def assign(self, st, l, rv):
         if l in self.int_locals:
@@ -332,9 +410,7 @@ class SelectionProof:
         truth = True if (nxt == t["otherwise"] and nxt != ftgt) else (False if nxt == ftgt else None)
         if truth is None:
             return
-        self.za.refine(st.d, (info[0], ("var", info[1][0]) if info[1][0] != "Z" else ("const", info[1][1]),
-                              ("var", info[2][0]) if info[2][0] != "Z" else ("const", info[2][1])), truth) \
-            if info[1][1] == 0 and info[2][1] == 0 or True else None
+        refine_terms(st.d, info[0], info[1], info[2], truth)
 
     def is_self(self, e):
         e = ds(e)
@@ -353,6 +429,7 @@ class SelectionProof:
             pos = self.term(t["args"][1])
             if pos is None:
                 return False
+            self.need(st, "index", st.lt(pos, ("N", 0)), "indexing at %s needs %s < len" % (b.where(bb, "term"), pos))
             st.d.add(pos[0], "N", -1 - pos[1])
             st.elem[d["l"]] = pos
             return True
@@ -373,6 +450,9 @@ class SelectionProof:
                 return True
         if cb is not None and cb.key == self.partition_key and self.is_self(args[0]):
             # contract proved by R22 (and R18: returns only for pivot_index < len)
+            pv_t = self.term(t["args"][1]) if len(t["args"]) > 1 else None
+            self.need(st, "pivot-in-range", pv_t is not None and st.lt(pv_t, ("N", 0)),
+                      "partition_mut at %s needs pivot_index < len (R18 proves it panic-free only then)" % b.where(bb, "term"))
             if not d["p"] and d["l"] in self.int_locals:
                 k = self.name(d["l"])
                 st.d.havoc_unsigned(k)
@@ -405,6 +485,8 @@ class SelectionProof:
             if pos is None:
                 return False
             # callee returns only for idx < len(sub-view)   (R5)
+            self.need(st, "recursive-precondition", st.lt(pos, hi) and st.le(lo, pos),
+                      "the recursive call at %s must pass an in-range index: position %s inside [%s, %s)" % (b.where(bb, "term"), pos, lo, hi))
             st.d.add(pos[0], hi[0], hi[1] - pos[1] - 1)
             w = st.fresh("w")
             st.member_relations(w, lo, hi)
@@ -429,6 +511,8 @@ class SelectionProof:
             if rng is None:
                 return False
             adt, fs = rng
+            if adt in ("std::ops::RangeTo", "std::ops::RangeFrom") and fs and fs[0] is not None:
+                self.need(st, "slice", st.le(fs[0], ("N", 0)), "slicing at %s needs %s ≤ len" % (b.where(bb, "term"), fs[0]))
             if adt == "std::ops::RangeTo" and fs and fs[0] is not None:
                 st.d.add(fs[0][0], "N", -fs[0][1])         # slicing panics unless end ≤ len
                 st.subview[d["l"]] = (("Z", 0), fs[0])
@@ -445,9 +529,19 @@ class SelectionProof:
                 st.subview[d["l"]] = st.subview[l]
             return True
         if not d["p"] and d["l"] in self.int_locals:
-            st.d.havoc_unsigned(self.name(d["l"]))
+            x = self.name(d["l"])
+            st.d.havoc_unsigned(x)
             if nm == "gen_range":
-                self.notes.append("pivot index is an unconstrained value (gen_range result havocked)")
+                self.notes.append("pivot index is any value of the requested range (gen_range contract: lo ≤ result < hi, panics on an empty range)")
+                al = t["args"][1]["pl"]["l"] if len(t["args"]) > 1 and t["args"][1]["k"] in ("move", "copy") and not t["args"][1]["pl"]["p"] else None
+                rng = st.subview.get(al)
+                if rng and isinstance(rng[0], str) and rng[0] == "std::ops::Range" and all(f is not None for f in rng[1]):
+                    lo_, hi_ = rng[1]
+                    self.need(st, "pivot-range", st.lt(lo_, hi_), "gen_range at %s panics on an empty range: needs %s < %s" % (b.where(bb, "term"), lo_, hi_))
+                    st.d.add(lo_[0], x, -lo_[1])
+                    st.d.add(x, hi_[0], hi_[1] - 1)
+                else:
+                    self.need(st, "pivot-range", False, "gen_range with an unmodelled range at %s" % b.where(bb, "term"))
             return True
         # any other call receiving the array mutably is not modelled
         for ty, a in zip(t["arg_tys"], args):
@@ -455,7 +549,10 @@ class SelectionProof:
                 return False
         return True
 
-    def prove(self, i_param):
+    def prove(self, i_param, assume_in_range=False):
+        """assume_in_range: add the precondition `i < len` and collect in self.panic_obs what must hold for no panic"""
+        self.i_param = i_param if assume_in_range else None
+        self.panic_obs = []
         paths = enumerate_paths(self.b)
         results = []
         it = (self.name(i_param), 0)
